@@ -1,6 +1,8 @@
 import VOPyVerif.Proofs.EvalF1
 import VOPyVerif.Proofs.EvalCast
 import VOPyVerif.Proofs.EvalHV
+import VOPyVerif.Proofs.EvalF1Invariance
+import VOPyVerif.Proofs.EvalHVInvariance
 import Mathlib.Analysis.Real.Sqrt
 /-!
 # C19 — gaps, ε-coverage and ε-F1 agree with their geometric definitions
@@ -486,5 +488,143 @@ theorem hv_true_front_ge (W : Matrix (Fin n) (Fin m) ℝ) (ref : Fin n → ℝ) 
   rw [hv_front_eq W ref hPS hcov]; exact hv_mono W ref hQ
 
 end Hypervolume
+
+end VOPy.C19
+
+/-! # INVARIANCE — gaps, coverage and ε-F1 depend on differences only
+
+The statements behind the metamorphic checks of the harness ("translated inputs give bit-identical
+gaps / scores", large-offset families): every quantity of this property is a function of the
+*differences* `μ_j − μ_i`.  Gap statements are over any linearly ordered field `K` (the same terms the
+driver runs at `ℚ`); coverage and F1 over `ℚ`.  `gadd a t = a + t`, `gscale c a = c·a` entrywise; the
+length hypotheses are the ones under which `zipWith` does not truncate. -/
+namespace VOPy.C19
+open VOPy VOPy.Eval
+
+section GapInvariance
+variable {K : Type} [Field K] [LinearOrder K] [IsStrictOrderedRing K]
+
+/-- **Gaps are translation invariant.**  For value vectors of the length of `t`: `m(i,j)` (both the
+flat-`α` form `smallM` and the broadcast form `smallMB` the code evaluates today) and the whole gap
+vector `get_delta` (both forms) are unchanged when every value vector is translated by `t`. -/
+theorem gap_translate (mu W : List (List K)) (α t : List K) (h : ∀ v ∈ mu, v.length = t.length) :
+    (∀ vi ∈ mu, ∀ vj ∈ mu, smallM (gadd vi t) (gadd vj t) W α = smallM vi vj W α ∧
+      smallMB (gadd vi t) (gadd vj t) W α = smallMB vi vj W α) ∧
+    delta (mu.map (fun v => gadd v t)) W α = delta mu W α ∧
+    deltaB (mu.map (fun v => gadd v t)) W α = deltaB mu W α :=
+  ⟨fun vi hi vj hj => ⟨smallM_translate vi vj t W α (h vi hi) (h vj hj),
+      smallMB_translate vi vj t W α (h vi hi) (h vj hj)⟩,
+   deltaWith_map _ _ (fun v => gadd v t) mu
+      (fun vi hi vj hj => smallM_translate vi vj t W α (h vi hi) (h vj hj)),
+   deltaWith_map _ _ (fun v => gadd v t) mu
+      (fun vi hi vj hj => smallMB_translate vi vj t W α (h vi hi) (h vj hj))⟩
+
+/-- **Gaps are positively homogeneous**: `m(c·μ_i, c·μ_j) = c·m(μ_i, μ_j)` and
+`Δ(c·μ) = c·Δ(μ)` for `c > 0` (no hypothesis on lengths; an undefined gap stays undefined). -/
+theorem gap_homogeneous (c : K) (hc : 0 < c) (mu W : List (List K)) (α : List K) :
+    (∀ vi vj, smallM (gscale c vi) (gscale c vj) W α = (smallM vi vj W α).map (c * ·) ∧
+      smallMB (gscale c vi) (gscale c vj) W α = (smallMB vi vj W α).map (c * ·)) ∧
+    delta (mu.map (gscale c)) W α = (delta mu W α).map (List.map (c * ·)) ∧
+    deltaB (mu.map (gscale c)) W α = (deltaB mu W α).map (List.map (c * ·)) :=
+  ⟨fun vi vj => ⟨smallM_gscale c hc vi vj W α, smallMB_gscale c hc vi vj W α⟩,
+   deltaWith_gscale c hc _ _ mu (fun vi _ vj _ => smallM_gscale c hc vi vj W α),
+   deltaWith_gscale c hc _ _ mu (fun vi _ vj _ => smallMB_gscale c hc vi vj W α)⟩
+
+/-- **Gaps do not depend on the presentation of the cone.**  Multiplying row `n` of `W` and `α_n` by the
+same factor `c_n > 0` (one per facet) changes neither `m(i,j)` nor `Δ` (flat-`α` form), and this is
+the scaling the cone constants obey: if `α_n` is the attained maximum of `w_n·u` over the unit vectors
+of the cone (`IsAlpha`), then `c·α_n` is that of `c·w_n` for the rescaled presentation of the *same*
+cone — together with `smallM_is_gap` the geometric meaning is preserved.  (The broadcast form
+`smallMB` divides by the largest `α` and does *not* have this invariance.) -/
+theorem gap_rowScale (cs : List K) (mu W : List (List K)) (α : List K) (D : Nat)
+    (h1 : cs.length = W.length) (h2 : α.length = W.length) (hp : ∀ c ∈ cs, 0 < c) :
+    (∀ vi vj, smallM vi vj (rowScaleK cs W) (List.zipWith (· * ·) cs α) = smallM vi vj W α) ∧
+    delta mu (rowScaleK cs W) (List.zipWith (· * ·) cs α) = delta mu W α ∧
+    (∀ w a c, 0 < c → IsAlpha W D w a → IsAlpha (rowScaleK cs W) D (gscale c w) (c * a)) := by
+  refine ⟨fun vi vj => smallM_rowScale cs vi vj W α h1 h2 hp, ?_,
+    fun w a c hc h => isAlpha_rowScale cs W D w a c h1 hp hc h⟩
+  have : (fun a b => smallM a b (rowScaleK cs W) (List.zipWith (· * ·) cs α)) =
+      fun a b => smallM a b W α := by
+    funext a b; exact smallM_rowScale cs a b W α h1 h2 hp
+  simp only [delta, this]
+
+end GapInvariance
+
+/-- the broadcast form is not invariant under rescaling one facet together with its `α`: orthant of
+`ℚ²`, `μ_j − μ_i = (1, 3)`; with rows and `α` as they are the value is `1`, after multiplying facet 1
+and `α_1` by `4` it is `1/4` (while the flat form stays `1`) -/
+example :
+    smallMB (K := ℚ) [0, 0] [1, 3] [[1, 0], [0, 1]] [1, 1] = some 1 ∧
+    smallMB (K := ℚ) [0, 0] [1, 3] (rowScaleK [1, 4] [[1, 0], [0, 1]]) (List.zipWith (· * ·) [1, 4] [1, 1])
+      = some (1/4) ∧
+    smallM (K := ℚ) [0, 0] [1, 3] (rowScaleK [1, 4] [[1, 0], [0, 1]]) (List.zipWith (· * ·) [1, 4] [1, 1])
+      = some 1 := by
+  decide +kernel
+
+/-- non-vacuity: three value vectors with gaps of size `2^-10` next to the offset `(2^20, −2^20)`: the
+gap vector is the same before and after translation, and scales with `2^20` -/
+example :
+    delta (K := ℚ) [[0, 0], [1/1024, 3/1024], [2/1024, 1/1024]] [[1, 0], [0, 1]] [1, 1]
+      = some [1/1024, 0, 0] ∧
+    delta (K := ℚ) ([[0, 0], [1/1024, 3/1024], [2/1024, 1/1024]].map (fun v => gadd v [1048576, -1048576]))
+      [[1, 0], [0, 1]] [1, 1] = some [1/1024, 0, 0] ∧
+    delta (K := ℚ) ([[0, 0], [1/1024, 3/1024], [2/1024, 1/1024]].map (gscale 1048576))
+      [[1, 0], [0, 1]] [1, 1] = some [1024, 0, 0] := by
+  decide +kernel
+
+/-! ### coverage and ε-F1 (over `ℚ`) -/
+
+/-- **ε-coverage is translation invariant and invariant under a common positive scaling of the points
+and `ε`** — as an equality of the certified answers, the outcome "no certificate" included. -/
+theorem isCoveredPt_invariant (vi vj t : Vec) (ε c : Rat) (W : Mat) (hc : 0 < c)
+    (hi : vi.length = t.length) (hj : vj.length = t.length) :
+    isCoveredPt (vadd vi t) (vadd vj t) ε W = isCoveredPt vi vj ε W ∧
+    isCoveredPt (smul c vi) (smul c vj) (c * ε) W = isCoveredPt vi vj ε W :=
+  ⟨isCoveredPt_translate vi vj t ε W hi hj, isCoveredPt_smul c hc vi vj ε W⟩
+
+/-- **ε-F1 is translation invariant**: for value vectors of the length of `t`, the score — with the
+gaps of the geometric definition (`f1`) and as the code computes them today (`f1B`) — is the same
+`F1Res` (value, `nan`, `unknown`, `ValueError`) for `μ` and for `μ + t`. -/
+theorem f1_translate_invariant (mu W : Mat) (α t : Vec) (truth pred : List Nat) (ε : Rat)
+    (h : ∀ v ∈ mu, v.length = t.length) :
+    f1 (mu.map (fun v => vadd v t)) W α truth pred ε = f1 mu W α truth pred ε ∧
+    f1B (mu.map (fun v => vadd v t)) W α truth pred ε = f1B mu W α truth pred ε :=
+  f1_translate mu W α t truth pred ε h
+
+/-- **ε-F1 is invariant under scaling the values and `ε` together** by `c > 0` (the certified
+projection search is equivariant: linear solves scale, the KKT / Farkas checkers accept exactly the
+scaled certificates). -/
+theorem f1_scale_invariant (c : Rat) (hc : 0 < c) (mu W : Mat) (α : Vec) (truth pred : List Nat)
+    (ε : Rat) :
+    f1 (mu.map (smul c)) W α truth pred (c * ε) = f1 mu W α truth pred ε ∧
+    f1B (mu.map (smul c)) W α truth pred (c * ε) = f1B mu W α truth pred ε :=
+  f1_smul c hc mu W α truth pred ε
+
+/-- non-vacuity: four designs with gaps of size `2^-10`, `ε = 2^-12`, prediction `{1, 3}` against the
+truth `{1, 2}` (one hit, one design with gap `2^-11 > ε`, one uncovered miss): the score is `1/2`, also
+next to the offset `(2^20, −2^20)` and after scaling values and `ε` by `2^20` -/
+example :
+    f1 [[0, 0], [1/1024, 3/1024], [3/1024, 1/1024], [1/2048, 5/2048]] [[1, 0], [0, 1]] [1, 1]
+      [1, 2] [1, 3] (1/4096) = .val (1/2) ∧
+    f1 ([[0, 0], [1/1024, 3/1024], [3/1024, 1/1024], [1/2048, 5/2048]].map
+        (fun v => vadd v [1048576, -1048576])) [[1, 0], [0, 1]] [1, 1] [1, 2] [1, 3] (1/4096) = .val (1/2) ∧
+    f1 ([[0, 0], [1/1024, 3/1024], [3/1024, 1/1024], [1/2048, 5/2048]].map (smul 1048576))
+      [[1, 0], [0, 1]] [1, 1] [1, 2] [1, 3] (1048576 * (1/4096)) = .val (1/2) := by
+  decide +kernel
+
+section HypervolumeInvariance
+open MeasureTheory
+variable {n m : Nat}
+
+/-- **Translation law of the hypervolume.**  Translating every point by `t` and the reference point by
+`W t` leaves `HV` unchanged.  The code takes `ref = min_p W p` over the evaluated sample, which moves by
+exactly `W t` when the sample is translated by `t`: with its data-dependent reference point the
+hypervolume (hence the discrepancy) is translation invariant; with a *fixed* reference point it is not. -/
+theorem hv_translate (W : Matrix (Fin n) (Fin m) ℝ) (ref : Fin n → ℝ) (S : Set (Fin m → ℝ))
+    (t : Fin m → ℝ) :
+    HV W (W.mulVec t + ref) ((fun p => t + p) '' S) = HV W ref S :=
+  hv_translate' W ref S t
+
+end HypervolumeInvariance
 
 end VOPy.C19
